@@ -253,3 +253,94 @@ def shift_frexp_concrete(p, m):
     y, n = L.mpf_frexp(x)
     ok = O.canonical_concrete(y) and y == (x[0], x[1], -x[3], x[3]) and n == x[2] + x[3]
     return ok, 'mpf_frexp(%r) = %r' % (x, (y, n))
+
+
+# ------------------------------------------------------------------------------ complex floor / ceil / nint / frac (componentwise)
+def _part_want(kind, x, exp, bc, prec, rnd):
+    """(predicate builder) for one component x = +-man*2**exp: returns f(val) -> z3 Bool"""
+    neg = zt(x[0]) == B(1)
+    m = zt(x[1])
+    if kind == 'frac':
+        if exp >= 0:
+            fr, k = B(0), 0
+        else:
+            k = -exp
+            r = m if k >= bc else (m & B((1 << k) - 1))
+            fr = z3.If(z3.And(neg, r != B(0)), B(1 << k) - r, r)
+
+        def f(val):
+            R = ref_round(fr, FALSE, prec, rnd, FALSE, 1, k + 1)
+            return z3.If(fr == B(0), is_tuple(val, FZERO), value_matches(val, FALSE, R, B(exp), k + 2, prec))
+        return f
+    if exp >= 0:
+        mag, base, top = m, B(exp), bc
+    else:
+        mag, base, top = _int_part(kind, m, neg, -exp), B(0), max(bc + exp, 0) + 1
+
+    def f(val):
+        R = ref_round(mag, FALSE, prec, rnd, neg, 1, top + 1)
+        return z3.If(mag == B(0), is_tuple(val, FZERO), value_matches(val, neg, R, base, top + 2, prec))
+    return f
+
+
+def cround(p):
+    """mp.floor / mp.ceil / mp.nint / mp.frac of an mpc (and mpc_floor etc. directly): componentwise definition, each part
+    correctly rounded at the (context or keyword) precision.  Exponents of both parts concrete, mantissas and signs symbolic."""
+    kind, bcs, exps, prec, rnd = p['kind'], p['bcs'], p['exps'], p['prec'], p.get('rnd', 'n')
+    ob = Ob(wbump(p, max(bcs) + max(abs(e) for e in exps) + 64), timeout_s=p.get('_t', 60))
+    re = ob.mpf('re', bcs[0], exp=exps[0])
+    im = ob.mpf('im', bcs[1], exp=exps[1])
+    entry = p.get('entry', 'ctx')
+    if entry == 'libmp':
+        from mpmath.libmp import libmpc as Lc
+        outs = ob.run(getattr(Lc, 'mpc_' + kind), [(re, im), prec, rnd])
+        unwrap = lambda v, st: v
+    else:
+        mp = _ctx(prec)
+        kw = dict(prec=prec, rounding=rnd) if entry == 'kw' else {}
+        if entry == 'ctx' and rnd != 'n':
+            raise Unsupported('context route rounds to nearest')
+        outs = ob.run(getattr(mp, kind), [mp.make_mpc((re, im))], kw)
+        cls = mp.mpc
+
+        def unwrap(v, st):
+            if not isinstance(v, cls):
+                return None
+            h = st.heap.get((id(v), '_mpc_'))
+            return h[1] if h is not None else v._mpc_
+    fr = _part_want(kind, re, exps[0], bcs[0], prec, rnd)
+    fi = _part_want(kind, im, exps[1], bcs[1], prec, rnd)
+
+    def good(val, st):
+        val = unwrap(val, st)
+        if val is None:
+            return False
+        return [fr(val[0]), fi(val[1])]
+    return finish(ob, ob.prove(outs, good))
+
+
+def cround_concrete(p, m):
+    kind, bcs, exps, prec, rnd = p['kind'], p['bcs'], p['exps'], p['prec'], p.get('rnd', 'n')
+    re = mk_tuple(m, 're', bcs[0], exp=exps[0])
+    im = mk_tuple(m, 'im', bcs[1], exp=exps[1])
+    entry = p.get('entry', 'ctx')
+    if entry == 'libmp':
+        from mpmath.libmp import libmpc as Lc
+        r = getattr(Lc, 'mpc_' + kind)((re, im), prec, rnd)
+    else:
+        mp = _ctx(prec)
+        try:
+            r = getattr(mp, kind)(mp.make_mpc((re, im)), **(dict(prec=prec, rounding=rnd) if entry == 'kw' else {}))._mpc_
+        finally:
+            mp.prec = 53
+    msgs = []
+    for part, x, nm in ((r[0], re, 're'), (r[1], im, 'im')):
+        v = O.frac_of(x)
+        want = {'floor': Fraction(math.floor(v)), 'ceil': Fraction(math.ceil(v)), 'nint': Fraction(round(v)), 'frac': v - math.floor(v)}[kind]
+        if want == 0:
+            ok, d = tuple(part) == FZERO, 'exact value 0, got %r' % (part,)
+        else:
+            ok, d = O.check_rounded(part, want, prec, rnd)
+        if not ok:
+            msgs.append(nm + ': ' + d)
+    return not msgs, ' '.join(msgs)
